@@ -330,6 +330,14 @@ func runC12(c *engine.Ctx) {
 	// blocks the client's own re-registration ----
 	checkCloseCoversRun(c, "R11")
 
+	// ---- R12 replacing a session is atomic: lookup of the old control and store of the new one are one critical
+	// section (shared with C16.R18) ----
+	c16CheckThenAct(c, "R12")
+
+	// ---- R13 every route a proxy registered is removed by its own hook (shared with C10.R11): otherwise the re-login's
+	// identical registration meets a stale route ----
+	checkQueuedClosureCaptures(c, "R13")
+
 	// ---- R10 the name a proxy is registered under is the name it owns ----
 	c.Rule("R10", "ProxyBaseConfig.UnmarshalFromMsg copies NewProxy.ProxyName into Name verbatim (no trimming or case change): RegisterProxy registers the name under the message's spelling and every removal uses the proxy's own Name")
 	if f := fn(c, "pkg/config/v1.ProxyBaseConfig.UnmarshalFromMsg"); f != nil {
